@@ -724,6 +724,7 @@ impl<
     {
         let mut dup_count = 0;
         let mut local_dup_count = 0;
+        let mut max_shard_count = 0;
         let mut prng = SmallRng::seed_from_u64(self.seed);
 
         if let Some(expected_num_keys) = self.expected_num_keys {
@@ -798,9 +799,18 @@ impl<
                                 local_dup_count += 1;
                             }
                             SolveError::MaxShardTooBig => {
+                                // Many copies of the same key end up in the same
+                                // shard whatever the seed, so the shard would be
+                                // too big forever and the duplicates would never
+                                // be looked at
+                                if self.check_dups && max_shard_count >= 32 {
+                                    pl.error(format_args!("Duplicate keys (the maximum shard is too big with 33 different seeds)"));
+                                    return Err(BuildError::DuplicateKey.into());
+                                }
                                 pl.warn(format_args!(
                                 "The maximum shard is too big, trying again with a different seed..."
                                ));
+                                max_shard_count += 1;
                             }
                             // Let's just try another seed
                             SolveError::UnsolvableShard => {
